@@ -9,6 +9,10 @@ replaced, for the lifetime of a LoggerStand, by harness objects:
                (= the timeout elapsed); being scheduled only after the flag went up is "blocked, then woken".
   BatonThread  the writer runs in a real thread, but parks at every scheduling point; join() is a scheduling
                point of the recorder that is enabled only when the writer has left its function.
+  io point     `DataSet.write()` of every data set of the stand is wrapped (on the instance): the calling thread -- the
+               writer -- parks BEFORE it, like before a synchronisation operation (op "io", ev = data set name).  So the
+               recorder can be scheduled while the writer is in the middle of servicing a request (before the first data
+               set, between two data sets): a handshake that lets the recorder stage / finalise during that time shows.
   virtual clock `time.time()` is 1e6 + the seconds the script has ticked.
 
 Exactly one of {controller, recorder "R", writer "W"} runs at any moment, so a schedule -- a list of steps
@@ -16,18 +20,27 @@ Exactly one of {controller, recorder "R", writer "W"} runs at any moment, so a s
 One step = the pending synchronisation operation of that thread + everything up to its next one (DataLogger.tla
 has the same granularity); the beginning of an API call up to its first operation is a step of its own.
 
-Every executed step is recorded as one uniform event (fields th, a, t, dt, id, live, op, ev, res, ret, exc) -- this is
+Every executed step is recorded as one uniform event (fields th, a, t, dt, id, live, rec, op, ev, res, ret, exc) -- this is
 the trace that DataLogger_Trace.tla validates.  After the script the output files are read back with the package's own
 readers and appended to the trace as the final {"a": "Files"} event.
+
+Restart: a collection that was stopped can be started again ("Start" after a completed "Stop").  Like a user of the
+package (DataLogger: metadata update, then START) the stand puts a new value of the metadata key `run` into the collection
+before every start(), and the names are metadata dependent -- naming="file": file_name_fmt "<ds>_r$(run)" in one directory,
+naming="dir": dir_fmt "rec$(run)" with constant file names -- so the second recording does not run into DataSetExistsError.
+`rec` in an event is the index of the recording the step belongs to (0 before the first start); the files of every
+recording are read back separately ({"recs": [{"files": {ds: [[serial..] per file]}, "badds": [..]} per recording]}) and
+judged against the arrivals of that recording.
 """
 from __future__ import annotations
 
+import json
 import os
 import shutil
 import sys
 import tempfile
 import threading as _rt
-from typing import Any, Callable, Dict, List, Optional
+from typing import Any, Callable, Dict, List, Optional, Tuple
 
 SRC = os.environ.get("VF_PYRTMA_SRC") or (__import__("os").environ.get("VF_REPO", "/repo") + "/src")
 if SRC != "/repo/src":
@@ -298,7 +311,7 @@ _counter = [0]
 
 
 def _blank(**kw) -> Dict[str, Any]:
-    e = {"th": "R", "a": "Op", "t": "", "dt": 0, "id": 0, "live": False, "op": "", "ev": "", "res": False, "ret": False, "exc": ""}
+    e = {"th": "R", "a": "Op", "t": "", "dt": 0, "id": 0, "live": False, "rec": 0, "op": "", "ev": "", "res": False, "ret": False, "exc": ""}
     e.update(kw)
     return e
 
@@ -306,7 +319,7 @@ def _blank(**kw) -> Dict[str, Any]:
 class LoggerStand:
     """One DataCollection with data sets d1 (selects type A), d2.. (select ALL), one formatter per data set."""
 
-    def __init__(self, fmts=("raw", "json"), intervals=(30, 0), typemap="std"):
+    def __init__(self, fmts=("raw", "json"), intervals=(30, 0), typemap="std", naming="file"):
         import logging
 
         import pyrtma
@@ -319,6 +332,10 @@ class LoggerStand:
 
         self.pyrtma, self.cd, self.dcmod = pyrtma, cd, dcmod
         self.fmts = list(fmts)
+        if naming not in ("file", "dir"):
+            raise HarnessError(f"naming {naming}")
+        self.naming = naming
+        self.nrec = 0
         self.ds_names = [f"d{i + 1}" for i in range(len(fmts))]
         self.typemap = {k: getattr(cd, "MDF_" + v) for k, v in TYPEMAPS[typemap].items()}
         self.now = 0
@@ -341,8 +358,16 @@ class LoggerStand:
         tempfile.tempdir = self.dir  # the quicklogger formatter parks data blocks in a NamedTemporaryFile
         try:
             os.mkdir(os.path.join(self.dir, "out"))
-            md = LoggingMetadata()
-            self.sched.call(lambda: dcmod.DataCollection("c17", os.path.join(self.dir, "out"), "rec", md))
+            md = self.md = LoggingMetadata()
+            md.update(json.dumps({"run": 0}))
+            dir_fmt = "rec" if naming == "file" else "rec$(run)"
+            self.sched.call(lambda: dcmod.DataCollection("c17", os.path.join(self.dir, "out"), dir_fmt, md))
+            for _ in range(8):      # event operations inside the constructor (e.g. an event that starts out set): not steps of a schedule
+                if self.sched.slots["R"].state != "parked":
+                    break
+                self.sched.run("R")
+            if self.sched.slots["R"].state != "idle":
+                raise HarnessError("DataCollection() does not return")
             if self.sched.slots["R"].exc:
                 raise HarnessError(f"DataCollection() raised {self.sched.slots['R'].exc!r}")
             self.dc = self.sched.call_out
@@ -352,7 +377,8 @@ class LoggerStand:
             evs[0].name, evs[1].name = "w2d", "fin"
             for i, (name, fmt) in enumerate(zip(self.ds_names, self.fmts)):
                 types = [self.typemap["A"].type_id] if i == 0 else [cd.ALL_MESSAGE_TYPES]
-                ds = DataSet("c17", name, "", name, get_formatter(fmt), intervals[min(i, len(intervals) - 1)], types, md)
+                ds = DataSet("c17", name, "", name + "_r$(run)" if naming == "file" else name, get_formatter(fmt), intervals[min(i, len(intervals) - 1)], types, md)
+                self._io_point(ds)
                 self.dc.add_data_set(ds)
             if self.sched.slots["W"].state != "parked":
                 raise HarnessError("DataCollection did not start a writer thread")
@@ -363,6 +389,15 @@ class LoggerStand:
         except BaseException:
             self.restore()
             raise
+
+    def _io_point(self, ds) -> None:
+        orig, sched, name = ds.write, self.sched, ds.name
+
+        def write():
+            if not sched.abort:
+                sched.point({"op": "io", "ev": name})
+            return orig()
+        ds.write = write  # instance attribute: DataCollection.write() / blocking_write() call ds.write()
 
     # ---------------------------------------------------------------------------------------------------
     def restore(self):
@@ -442,7 +477,7 @@ class LoggerStand:
     def begin(self, a: str, t: str = "", dt: int = 0) -> Dict[str, Any]:
         """the first step of an API call of the recorder (Tick is the environment's own step)"""
         dc = self.dc
-        e = _blank(th="R", a=a, t=t, dt=dt)
+        e = _blank(th="R", a=a, t=t, dt=dt, rec=self.nrec + (1 if a == "Start" else 0))
         if a == "Tick":
             self.now += dt
             e["ret"] = True
@@ -459,8 +494,14 @@ class LoggerStand:
                 e["live"] = self.api["started"] and not self.api["stop_called"] and not self.api["paused"]
                 fn = lambda: dc.update(m)  # noqa: E731
         elif a == "Start":
-            fn = dc.start
-            self.api["started"] = True
+            self.nrec += 1
+            run = self.nrec
+
+            def fn():      # what DataLogger does between two recordings: new metadata into the collection, then start()
+                self.md.update(json.dumps({"run": run}))
+                dc.update_metadata(self.md)
+                dc.start()
+            self.api.update(started=True, paused=False, stop_called=False, stopped=False)
         elif a == "Pause":
             fn = dc.pause
             self.api["paused"] = True
@@ -481,7 +522,7 @@ class LoggerStand:
 
     def op(self, who: str) -> Dict[str, Any]:
         cur = self.sched.run(who)
-        e = _blank(th=who, a="Op", op=cur.get("op", ""), ev=cur.get("ev", ""), res=bool(cur.get("res", False)))
+        e = _blank(th=who, a="Op", rec=self.nrec, op=cur.get("op", ""), ev=cur.get("ev", ""), res=bool(cur.get("res", False)))
         return self._after(e)
 
     def can(self, step: Dict[str, Any]) -> bool:
@@ -512,12 +553,13 @@ class LoggerStand:
         """code-driven schedule: the recorder performs the API calls of `script` in order; at every point where both threads
         can take a step that is not a no-op, the next thread is prefix[k] / a random choice (rng) / the first option.
         Calls that share nothing with the writer (Start, Tick, Pause, Resume) are taken at once (they commute with every writer
-        step).  Returns (result, alternative prefixes not taken beyond `prefix`)."""
+        step; Start only while the writer is not in the middle of a flush).  Returns (result, alternative prefixes not taken beyond `prefix`)."""
         prefix = prefix or []
         ci, taken, alts = 0, [], []
         while len(self.steps) < 2000:
             idle = self.sched.slots["R"].state == "idle"
-            if idle and ci < len(script) and script[ci]["a"] in ("Start", "Tick", "Pause", "Resume"):
+            wmid = (self.sched.slots["W"].pending or {}).get("op") == "io"   # writer in the middle of a flush: start() (new files) does not commute
+            if idle and ci < len(script) and script[ci]["a"] in ("Start", "Tick", "Pause", "Resume") and not (wmid and script[ci]["a"] == "Start"):
                 self.do(script[ci])
                 ci += 1
                 continue
@@ -579,6 +621,13 @@ class LoggerStand:
                         continue
                     return
                 continue
+            en = [w for w in ("W", "R") if self.sched.enabled(w)]
+            if en and all(self.is_stutter(w) for w in en):
+                # every thread that can run is in a wait() whose event is down, and only another waiting thread could raise it:
+                # nothing will ever change.  One round of timeouts is recorded, then the run ends (a stop() in progress = hang).
+                for w in en:
+                    self.op(w)
+                break
             order = ("W", "R") if turn % 2 == 0 else ("R", "W")
             turn += 1
             for who in order:
@@ -610,37 +659,42 @@ class LoggerStand:
     def result(self) -> Dict[str, Any]:
         files, unread = self.read_back()
         ev = list(self.events)
-        ev.append(_blank(th="E", a="Files", files=files, unread=sorted({u.split(":")[1] for u in unread}),
-                         badds=sorted({u.split(":")[0] for u in unread}), hang=self.hang))
+        recs = [{"files": f, "badds": sorted({u.split(":")[0] for u in unread if u.split(":")[3] == str(r + 1)})} for r, f in enumerate(files)]
+        ev.append(_blank(th="E", a="Files", rec=self.nrec, recs=recs, unread=sorted({u.split(":")[1] for u in unread}), hang=self.hang))
         return {"ev": ev, "order": writer_order(ev), "steps": list(self.steps), "desync": self.desync, "hang": self.hang, "files": files, "unread": unread,
                 "script": [{"id": i, "t": self.msgs[i][0]} for i in sorted(self.msgs)]}
 
     # ---------------------------------------------------------------------------------------------------
-    def _paths(self, name: str, ext: str) -> List[str]:
-        d = os.path.join(self.dir, "out", "rec")
+    def _paths(self, name: str, ext: str, run: int) -> List[str]:
+        """the files of data set `name` written by recording `run`: the base file, then the subdivisions in order"""
+        d = os.path.join(self.dir, "out", "rec" if self.naming == "file" else f"rec{run}")
         if not os.path.isdir(d):
             return []
-        base = name + ext
-        subs = sorted(f for f in os.listdir(d) if f.startswith(name + "_") and f.endswith(ext))
+        stem = f"{name}_r{run}" if self.naming == "file" else name
+        base = stem + ext
+        subs = sorted(f for f in os.listdir(d) if f.startswith(stem + "_") and f.endswith(ext))
         return [os.path.join(d, f) for f in ([base] if os.path.exists(os.path.join(d, base)) else []) + subs]
 
     def read_back(self):
-        """-> ({ds: [[serial, ...] per file]}, [ "<ds>:<format>:<why>", ... ])"""
+        """-> ([{ds: [[serial, ...] per file]} per recording], [ "<ds>:<format>:<why>:<recording>", ... ])"""
         from pyrtma.data_logger.data_formatter import get_formatter
 
-        files: Dict[str, List[List[int]]] = {}
+        recs: List[Dict[str, List[List[int]]]] = []
         unread: List[str] = []
-        for name, fmt in zip(self.ds_names, self.fmts):
-            ext = get_formatter(fmt).ext
-            files[name] = []
-            for p in self._paths(name, ext):
-                try:
-                    ids = getattr(self, "_read_" + fmt)(p)
-                except Exception as e:  # noqa: BLE001 - whatever the package's reader raises
-                    ids = []
-                    unread.append(f"{name}:{fmt}:{type(e).__name__}")
-                files[name].append(ids)
-        return files, sorted(set(unread))
+        for run in range(1, self.nrec + 1):
+            files: Dict[str, List[List[int]]] = {}
+            for name, fmt in zip(self.ds_names, self.fmts):
+                ext = get_formatter(fmt).ext
+                files[name] = []
+                for p in self._paths(name, ext, run):
+                    try:
+                        ids = getattr(self, "_read_" + fmt)(p)
+                    except Exception as e:  # noqa: BLE001 - whatever the package's reader raises
+                        ids = []
+                        unread.append(f"{name}:{fmt}:{type(e).__name__}:{run}")
+                    files[name].append(ids)
+            recs.append(files)
+        return recs, sorted(set(unread))
 
     def _same(self, serial: int, hdr: bytes, data: Optional[bytes]):
         if serial not in self.msgs:
@@ -732,31 +786,43 @@ class LoggerStand:
 
 
 def writer_order(ev: List[Dict[str, Any]]) -> str:
-    """which of its two events the writer touches first after writing (observed)"""
+    """the handshake the code has (observed): which of its two events the writer touches first after waking up, and whether the
+    recorder asks write_finished ("handoff": the writer accepts the request with clear(w2d) BEFORE writing, the recorder's
+    update tests is_set(fin), stop only waits for fin) or write_to_disk"""
+    asks_fin = any(e["th"] == "R" and e["op"] == "is_set" and e["ev"] == "fin" for e in ev)
+    asks_w2d = any(e["th"] == "R" and e["op"] == "is_set" and e["ev"] == "w2d" for e in ev)
     for i, e in enumerate(ev):
         if e["th"] == "W" and e["op"] == "wait" and e["res"]:
-            nxt = [x for x in ev[i + 1:] if x["th"] == "W"][:2]
-            if len(nxt) == 2:
-                k = (nxt[0]["op"], nxt[0]["ev"], nxt[1]["op"], nxt[1]["ev"])
-                if k == ("clear", "w2d", "set", "fin"):
-                    return "clear_then_set"
-                if k == ("set", "fin", "clear", "w2d"):
-                    return "set_then_clear"
-                return "other"
+            seq = []
+            for x in ev[i + 1:]:
+                if x["th"] == "W":
+                    if x["op"] == "wait":
+                        break
+                    seq.append("io" if x["op"] == "io" else f"{x['op']} {x['ev']}")
+            if len([x for x in seq if x != "io"]) < 2 or "io" not in seq:
+                continue
+            shape = [x for k, x in enumerate(seq) if x != "io" or k == 0 or seq[k - 1] != "io"]   # runs of io collapsed
+            if shape == ["clear w2d", "io", "set fin"] and asks_fin and not asks_w2d:
+                return "handoff"
+            if shape == ["io", "clear w2d", "set fin"] and not asks_fin:
+                return "clear_then_set"
+            if shape == ["io", "set fin", "clear w2d"] and not asks_fin:
+                return "set_then_clear"
+            return "other"
     return "unknown"
 
 
-def run_behaviour(behaviour, fmts=("raw", "json"), intervals=(30, 0), typemap="std", stutters=None) -> Dict[str, Any]:
-    st = LoggerStand(fmts=fmts, intervals=intervals, typemap=typemap)
+def run_behaviour(behaviour, fmts=("raw", "json"), intervals=(30, 0), typemap="std", stutters=None, naming="file") -> Dict[str, Any]:
+    st = LoggerStand(fmts=fmts, intervals=intervals, typemap=typemap, naming=naming)
     try:
         return st.run(behaviour, stutters)
     finally:
         st.restore()
 
 
-def run_schedule(script, prefix=None, seed=None, p_stutter=0.0, fmts=("raw", "json"), intervals=(30, 0), typemap="std"):
+def run_schedule(script, prefix=None, seed=None, p_stutter=0.0, fmts=("raw", "json"), intervals=(30, 0), typemap="std", naming="file"):
     import random
-    st = LoggerStand(fmts=fmts, intervals=intervals, typemap=typemap)
+    st = LoggerStand(fmts=fmts, intervals=intervals, typemap=typemap, naming=naming)
     try:
         return st.run_script(script, prefix, random.Random(seed) if seed is not None else None, p_stutter)
     finally:
@@ -767,36 +833,69 @@ def probe_order() -> str:
     """one flush cycle on the real code: in which order does the writer clear the request / signal completion?"""
     R = lambda a, **kw: dict({"th": "R", "a": a}, **kw)  # noqa: E731
     W = {"th": "W", "a": "Op"}
-    beh = [R("Start"), R("Tick", dt=16), R("Update", t="A"), R("Op"), R("Op"), R("Op"), W, W, W, R("Stop"), R("Op"), R("Op"), R("Op"),
+    beh = [R("Start"), R("Tick", dt=16), R("Update", t="A"), R("Op"), R("Op"), R("Op"), W, W, W, W, R("Stop"), R("Op"), R("Op"), R("Op"),
            R("Close"), W, R("Op")]
     return run_behaviour(beh, fmts=("raw",))["order"]
 
 
+def probe_elapsed_carried() -> bool:
+    """does the elapsed time of a paused first recording carry over into the second one (start() leaves _elapsed_time alone)?
+    Observed: recording 1 is paused after 16 s and stopped; the first update of recording 2, at second 0 of that recording,
+    reaches a flush (a synchronisation operation) iff the elapsed time it sees is beyond WRITE_PERIOD."""
+    R = lambda a, **kw: dict({"th": "R", "a": a}, **kw)  # noqa: E731
+    st = LoggerStand(fmts=("raw",), intervals=(0,))
+    try:
+        for step in (R("Start"), R("Tick", dt=16), R("Pause"), R("Stop")):
+            st.do(step)
+        for _ in range(12):
+            if st.sched.slots["R"].state == "idle":
+                break
+            st.do(R("Op"))
+        st.do(R("Start"))
+        e = st.do(R("Update", t="A"))
+        carried = not e["ret"]
+        st.drain()
+        return carried
+    finally:
+        st.restore()
+
+
 # ------------------------------------------------------------------------------------------------------------
 def judge(res: Dict[str, Any]) -> Dict[str, Any]:
-    """the C17 clauses on the files of one run (the same predicates DataLogger_Trace evaluates; used for cross-checking
-    TLC's verdict and for the signature's input class)."""
+    """the C17 clauses on the files of one run, PER RECORDING (the same predicates DataLogger_Trace evaluates; used for
+    cross-checking TLC's verdict and for the signature's input class).  detail[clause] = ["<ds>@<recording>", ...]"""
     arr = {e["id"]: e for e in res["ev"] if e["a"] == "Update" and e["t"] != "None"}
-    names = sorted(res["files"])
     out: Dict[str, List[str]] = {"Lost": [], "Duplicated": [], "Reordered": [], "WrongDataSet": [], "Extra": []}
-    badds = {u.split(":")[0] for u in res["unread"]}
+    bad = {(u.split(":")[0], int(u.split(":")[3])) for u in res["unread"]}
+    names = sorted({d for f in res["files"] for d in f})
     for d in names:
-        if d in badds:
-            continue
         sel = (lambda t: t == "A") if d == "d1" else (lambda t: True)
-        exp = [i for i in sorted(arr) if arr[i]["live"] and sel(arr[i]["t"])]
-        obs = [i for f in res["files"][d] for i in f]
-        if any(i not in obs for i in exp):
-            out["Lost"].append(d)
-        if len(set(obs)) != len(obs):
-            out["Duplicated"].append(d)
-        core = [i for i in obs if i in exp]
-        if any(core[k] > core[k + 1] for k in range(len(core) - 1)):
-            out["Reordered"].append(d)
-        if any(i in arr and not sel(arr[i]["t"]) for i in obs):
-            out["WrongDataSet"].append(d)
-        if any(i in arr and sel(arr[i]["t"]) and not arr[i]["live"] for i in obs):
-            out["Extra"].append(d)
+        allobs: List[Tuple[int, int]] = []
+        for r, files in enumerate(res["files"], start=1):
+            if (d, r) in bad or d not in files:
+                continue
+            tag = f"{d}@{r}"
+            exp = [i for i in sorted(arr) if arr[i]["live"] and arr[i]["rec"] == r and sel(arr[i]["t"])]
+            obs = [i for f in files[d] for i in f]
+            allobs += [(i, r) for i in obs]
+            if any(i not in obs for i in exp):
+                out["Lost"].append(tag)
+            core = [i for i in obs if i in exp]
+            if any(core[k] > core[k + 1] for k in range(len(core) - 1)):
+                out["Reordered"].append(tag)
+            if any(i in arr and not sel(arr[i]["t"]) for i in obs):
+                out["WrongDataSet"].append(tag)
+            if any(i in arr and sel(arr[i]["t"]) and not (arr[i]["live"] and arr[i]["rec"] == r) for i in obs):
+                out["Extra"].append(tag)
+        # written exactly once: over ALL files of the data set (a message of recording 1 that shows up again in recording 2)
+        seen: Dict[int, int] = {}
+        for i, r in allobs:
+            if i in seen:
+                tag = f"{d}@{r}" if seen[i] == r else f"{d}@{seen[i]}+{r}"
+                if tag not in out["Duplicated"]:
+                    out["Duplicated"].append(tag)
+            else:
+                seen[i] = r
     cl = ["C17." + k for k in ("Lost", "Duplicated", "Reordered", "WrongDataSet") if out[k]]
     for u in res["unread"]:
         c = f"C17.FileUnreadable({u.split(':')[1]})"
